@@ -272,6 +272,7 @@ func (s *regSys) Apply(op Op, check bool) (tainted bool) {
 
 func (s *regSys) Key() string {
 	d := vstate.NewDumper()
+	d.AutoIDs = true // upload IDs are named in order of first appearance; handles are dumped first, in handle order
 	for _, h := range s.handles {
 		if h != nil {
 			d.NameID(h.ID())
